@@ -95,7 +95,9 @@ class PoolModel:
         self.methods = [f for k, f in sorted(facts.local_fns.items()) if f.rec.get("impl_self_adt") == self.tp and f.rec["def_kind"] == "AssocFn"]
         cands = []
         for m in self.methods:
-            takes_task = any(re.search(r"Box<\(?dyn .*Fn", l["ty"]) and not l["ty"].startswith("std::option::Option") for l in m.locals[1:1 + m.argc])
+            # the task: a boxed closure, or a value of a type parameter of the method (`spawn<F: FnOnce()>(&self, code: F)`, boxed inside)
+            takes_task = any((re.search(r"Box<\(?dyn .*Fn", l["ty"]) and not l["ty"].startswith("std::option::Option")) or
+                             (re.match(r"^[A-Z]\w*$", l["ty"]) and l["ty"] not in facts.adts) for l in m.locals[1:1 + m.argc])
             outside = [g for g, bb, t in facts.callers_of(m.id) if g.rec.get("impl_self_adt") != self.tp]
             if takes_task and outside:
                 cands.append(m)
